@@ -382,11 +382,14 @@ def _part_goals(s, gi, pi, p, batch, fb, tag):
         finclip = ("rewrite map_clip_log_shortfall by (unfold e, f, b; cbv [shortfall rmax eps_clip sig_of cfit_prob %s]; %s); " % (LISTF, IP)) + fin
         intro = "intros W e f b V eg g bm; "
         if s.opts.get("lowdens"):
-            # a mixture density below the clip threshold: clip_log is evaluated in its branch-free form on the exact
-            # rational expressions (an enclosure of I_sig, I_bg would be amplified by 1/eps inside clip_log_abs)
+            # a mixture density below the clip threshold (an enclosure of I_sig, I_bg around a density of order 1 would be
+            # amplified by 1/eps inside the branch-free clip_log_abs)
             scale = float(np.sum(np.abs(np.array(W) * np_clip_log(pr)))) + abs(sw * math.log(lam)) + abs(lam)
-            isf = ibf = ""
-            finclip = "rewrite map_clip_log_abs; unfold W, e, f, b, V, eg, g, bm; cbv [sig_of cfit_prob %s %s]; %s" % (LISTF, CLIP, IP)
+            if pr[0] < 1e-6 and min(pr[1:]) > 2e-6:
+                # the first event is in the clip region: it keeps the branch-free clip_log (its density is tiny, so the enclosures
+                # of I_sig, I_bg are harmless there), the others are certified above the threshold (NLL_proofs.map_clip_log_head)
+                finclip = ("unfold e, f, b; cbv [sig_of rzip]; rewrite map_clip_log_head by (cbv [shortfall rmax eps_clip cfit_prob %s]; %s); "
+                           "unfold W; cbv [cfit_prob %s %s]; %s" % (LISTF, IP, LISTF, CLIP, IP))
         if m in ("cfit", "cfit_cached"):
             # Model_cfit.nll uses clip_log like its gradient path since /repo 9a16823
             stmt = L + le("cfit_nll %s W e f b V eg g bm" % Rq(fb), p.call, tol_of(p.call, scale))
